@@ -96,7 +96,10 @@ def check(run: WorkerRun, model: Model, res: Result, label: str) -> None:
         if not ok:
             delivered = any(e["kind"] == "deliver" and e["id"] == j["id"] for e in run.events)
             # Redis: taken by the consumer's background fetch loop, never handed to the runner, dropped by finish() (F24)
-            f24 = (sc.get("broker") == "redis" and not delivered and not was_started and len(here) == 1
+            # (F24's trigger: the consumer had been paused by the runner when it was finished — its fetch loop was merely
+            # completing the fetch it had begun; a consumer still fetching during the shutdown is another matter)
+            paused_at_finish = all(e.get("paused") is not False for e in run.events if e["kind"] == "consumer_finish")
+            f24 = (sc.get("broker") == "redis" and not delivered and not was_started and len(here) == 1 and paused_at_finish
                    and here[0]["place"] == "processing" and here[0]["tried"] == 0)
             res.bad("impl", "a message beyond messages_limit was lost, duplicated, left in-flight or counted as retried",
                     case=dict(case, message=j["id"]), observed={"started": was_started, "present": here},
